@@ -158,7 +158,7 @@ def pStep (st : PState) : Tok → Option PState
       | _, _ => none
   | .text s =>
     match st.stack with
-    | [] => none                                              -- character data outside the root
+    | [] => if s.all isXmlSpace then some st else none        -- only blanks outside the root
     | f :: r => if xmlChars s then some { st with stack := { f with kidsRev := addText s f.kidsRev } :: r } else none
   | .raw s =>
     if !s.all isXmlSpace then none                            -- unescaped, so only blanks are safe
